@@ -208,6 +208,10 @@ func VerifC10CrashPoints() {
 	// pre-state: one committed part referenced by the metadata
 	s := verifNewStore(root)
 	verifMust(s.PutPart(verifBg, nil, idOld, bytes.NewReader(oldBody)))
+	idOld2 := *partstore.MustNewPartIdFromString("01ARZ3NDEKTSV4RRFFQ69G5FA0")
+	old2Body := []byte("second-old")
+	verifMust(s.PutPart(verifBg, nil, idOld2, bytes.NewReader(old2Body)))
+	deleteBoth := verifBool("delete-both-old-parts")
 
 	// the transaction: operations in solver-chosen order with the crash hook
 	// registered at a solver-chosen position among their hooks
@@ -229,6 +233,9 @@ func VerifC10CrashPoints() {
 		}
 		if op == 0 {
 			verifMust(s.DeletePart(verifBg, tx, idOld))
+			if deleteBoth {
+				verifMust(s.DeletePart(verifBg, tx, idOld2))
+			}
 			deleted = true
 		} else {
 			verifMust(s.PutPart(verifBg, tx, idNew, bytes.NewReader(newBody)))
@@ -271,6 +278,10 @@ func VerifC10CrashPoints() {
 		data, err := verifReadPart(s2, idOld)
 		verifAssert(err == nil, "after the crash and restart a part the metadata still references is not readable")
 		verifAssert(bytes.Equal(data, oldBody), "after the crash and restart a referenced part has different content")
+	}
+	if !(committed && deleted && deleteBoth) {
+		data, err := verifReadPart(s2, idOld2)
+		verifAssert(err == nil && bytes.Equal(data, old2Body), "after the crash and restart a second part the metadata still references is not readable")
 	}
 	if wantNew {
 		data, err := verifReadPart(s2, idNew)
